@@ -259,7 +259,7 @@ func (impl Implementation) Dggsvp3(jobU, jobV, jobQ lapack.GSVDJob, m, p, n int,
 		for i := 1; i < k; i++ {
 			r := a[i*lda+n-k-l : i*lda+i+n-k-l]
 			for j := range r {
-				a[j] = 0
+				r[j] = 0
 			}
 		}
 	}
